@@ -35,6 +35,10 @@ CHECKS = {
    technique="Coq proof (routing through the receive path + poll + first_pdu composed; free-slot key invariant by induction over client histories; list lemmas for views) + model witness for the refuted view-stability clause + differential histories that read responses through views",
    text="Proved: c01_routing (in any state where free slots carry no key and no other live request has the same first index, ANY well-formed response to the request in slot i - any data, working counter, further datagrams, source address - is accepted into slot i only, completes that request, and first_pdu's view shows exactly the returned data and working counter); c01_no_stale_keys (the first hypothesis holds in every state reachable by any client history - timeouts, abandonment, unsent drops, send errors included); c01_view_exact (trim_front shows exactly the rest of the data area for every amount); c01_first_pdu_exact. REFUTED: view stability (c01_view_stable_refuted; first_pdu releases the slot before returning the view) - known finding, reproduced on the real code. Tied by 500/5000 round-trip-biased histories with responses in any order and inside windows, read through first_pdu/iterator, views trimmed and re-read later; oracles on the implementation for routing, byte-exactness, trim and stability.",
    note="PARTIAL: the no-lost-wakeup clause is not modelled (wakers are outside the model; the single-threaded harness polls explicitly). Routing is proved at operation granularity; the window-granular races (response drop vs. concurrent allocation) are covered by the fix 1527fcbd + correspondence histories with yield points, not by a theorem. 'Fewer than 256 indices while outstanding' enters as the distinct-first-index hypothesis."),
+ "C07": dict(
+   technique="Coq proof (loop invariant + decreasing measure over the three cycle loops, induction on fuel; list lemmas for tiling and image update) + differential runs of the real tx_rx / tx_rx_sync_system_time / tx_rx_dc against a wire with random answers",
+   text="Theorem c07_complete: for all three variants, every image/split/SubDevice list/logical start, every frame size from the smallest that carries one state check (plus the clock datagram), both integer modes and ANY device answers: the cycle terminates, and on success every image byte was sent exactly once in LRW datagrams tiling the logical window from its start, every frame fits the frame size and exactly one state check per SubDevice was sent. c07_frame (what each frame contains), c07_dc_once (one FRMW, first in the first frame, to the reference), c07_image_chunk (inputs take the returned bytes, outputs and all other bytes untouched), c07_cycle_info. Tied by 900 (quick) / 18000 debug+release (thorough) cycles on groups built through the hook constructor with every frame, final image, counter, state list and time compared with the model, and an independent Python oracle on the implementation's frames.",
+   note="PARTIAL: the whole-cycle statements for the final image, the working-counter sum and the state list are proved per chunk / per frame (c07_image_chunk, model fields) and validated by the oracle, not yet lifted over the loop. Device answers are structurally well formed (arbitrary data and counters). The u16 counter sum overflow is a known finding. Known fixed: the no-DC-reference deadlock."),
 }
 ORDER = [f"C{i:02d}" for i in range(1, 21)]
 
